@@ -528,6 +528,10 @@ class Replayer:
           raise Divergence('call', {'action': act[0], 'clause': 'call', 'got': _exc_name(e)},
                            f'{act} raised {e!r:.200}') from e
         self.hit(act[0])
+        if act[0] == 'EnterOv':
+          self.hit('EnterOv:attrs' if act[3] else 'EnterOv:plain')
+        if act[0] == 'Clone':
+          self.hit('Clone:deep' if act[2] else 'Clone:shallow')
         if act[0] in ('Set', 'Insert') and act[-1] in self.obj and act[-1] < 100:
           self.hit('attach')
         self._count_resolution_changes(beh[step - 1].state, st)
